@@ -913,6 +913,40 @@ NP["numpy.any"] = NP["ndarray.any"] = _reduce_bool(True)
 NP["numpy.all"] = NP["ndarray.all"] = _reduce_bool(False)
 
 
+@npfn("numpy.allclose")
+def _allclose(ex, args, kwargs, fr):
+    """np.allclose(a, b, rtol=1e-5, atol=1e-8) == np.all(|a - b| <= atol + rtol * |b|) for finite values (library
+    contract; NaN / inf handling is not modelled)."""
+    a, b = args[0], args[1]
+    rtol = kwargs.get("rtol", args[2] if len(args) > 2 else VFloat(1e-5))
+    atol = kwargs.get("atol", args[3] if len(args) > 3 else VFloat(1e-8))
+    if not (ex.is_arr(a) or ex.is_arr(b)):
+        raise Unsupported("np.allclose of scalars")
+    import ast as _ast
+    diff = ufunc1(ex, "abs", arr_binop(ex, _ast.Sub(), a, b))
+    bound = arr_binop(ex, _ast.Add(), arr_binop(ex, _ast.Mult(), ufunc1(ex, "abs", b), rtol), atol) if ex.is_arr(b) else None
+    if bound is None:
+        from .ops import arith
+        ab = b if is_conc(b.v) and b.v >= 0 else None
+        if ab is None:
+            t = to_real(b)
+            ab = VFloat(z3.If(t >= 0, t, -t))
+        bound = arith(ex.cfg, _ast.Add(), arith(ex.cfg, _ast.Mult(), ab, rtol), atol)
+    cmp_ = arr_compare(ex, "le", diff, bound)
+    return NP["numpy.all"](ex, [cmp_], {}, fr)
+
+
+@npfn("numpy.full_like")
+def _full_like(ex, args, kwargs, fr):
+    c = cell(ex, args[0])
+    v = kwargs.get("fill_value", args[1] if len(args) > 1 else None)
+    dt = kwargs.get("dtype")
+    dtype = dtype_of_lib(dt) if dt is not None and not isinstance(dt, VNone) else c.dtype
+    if not is_num(v):
+        raise Unsupported("np.full_like with a non-scalar fill value")
+    return const_array(ex, c.shape, dtype, v)
+
+
 @npfn("numpy.array_equal")
 def _array_equal(ex, args, kwargs, fr):
     a, b = args
